@@ -436,7 +436,7 @@ impl Sup {
             }
         } else {
             // death not attributable to the property: skip the case and go on
-            if r.job.restarts >= 25 {
+            if r.job.restarts >= 300 {
                 self.infra.push(format!("child {} shard {} died {} times outside the property's own steps; giving up (see C01/C02)", r.job.profile, r.job.shard, r.job.restarts + 1));
                 return;
             }
